@@ -36,8 +36,9 @@ from typing import Any, Callable, Dict, Iterable, List, Optional, Tuple
 VERIF = os.path.dirname(os.path.dirname(os.path.abspath(__file__)))
 REPO = os.environ.get("VF_REPO", "/repo")
 REPO_SRC = os.path.join(REPO, "src")
-EVIDENCE_DIR = os.path.join(VERIF, "evidence")
-REPLAY_DIR = os.path.join(VERIF, "replays")
+_OUT = os.environ.get("VF_OUT", VERIF)   # auxiliary runs (e.g. against a scratch worktree via VF_REPO) write elsewhere; registered commands never set it
+EVIDENCE_DIR = os.path.join(_OUT, "evidence")
+REPLAY_DIR = os.path.join(_OUT, "replays")
 KNOWN_FILE = os.path.join(VERIF, "known_findings.jsonl")
 
 PINNED_ENV = {
